@@ -20,6 +20,195 @@ def _qual(node) -> str:
     return ".".join(reversed(names)) or "<module>"
 
 
+def shared_accumulator_sites(tree: ast.Module):
+    """(function, parameter, assignment, kind) for parameters that are ACCUMULATORS - mutated in place and handed on to recursive calls of the same function - and
+    are given their default inside the body.  kind = 'none-test' for `p = X if p is None else p` / `if p is None: p = X`; 'truthiness' for `p = p or X` / `if not p: p = X`:
+    an accumulator that is still EMPTY is falsy, so the truthiness form silently replaces the caller's container by a private one and the sharing is lost."""
+    out = []
+    for fn in [n for n in ast.walk(tree) if isinstance(n, ast.FunctionDef)]:
+        params = {a.arg for a in fn.args.args + fn.args.kwonlyargs}
+        for p in sorted(params):
+            mutated = any((isinstance(x, ast.Subscript) and isinstance(x.ctx, ast.Store) and isinstance(x.value, ast.Name) and x.value.id == p)
+                          or (isinstance(x, ast.Call) and isinstance(x.func, ast.Attribute) and isinstance(x.func.value, ast.Name) and x.func.value.id == p
+                              and x.func.attr in ("setdefault", "append", "add", "update", "extend", "insert")) for x in walk_local(fn))
+            handed_on = any(isinstance(x, ast.Call) and call_name(x) == fn.name and any(isinstance(a, ast.Name) and a.id == p for a in list(x.args) + [k.value for k in x.keywords])
+                            for x in walk_local(fn))
+            if not (mutated and handed_on):
+                continue
+            for st in walk_local(fn):
+                if isinstance(st, ast.Assign) and len(st.targets) == 1 and isinstance(st.targets[0], ast.Name) and st.targets[0].id == p:
+                    v = st.value
+                    par = getattr(st, "_parent", None)
+                    if isinstance(v, ast.BoolOp) and isinstance(v.op, ast.Or) and isinstance(v.values[0], ast.Name) and v.values[0].id == p:
+                        out.append((fn, p, st, "truthiness"))
+                    elif isinstance(v, ast.IfExp):
+                        t = " ".join(src(v.test).split())
+                        if t in (f"{p} is None", f"{p} is not None", f"None is {p}"):
+                            out.append((fn, p, st, "none-test"))
+                        elif t in (p, f"not {p}"):
+                            out.append((fn, p, st, "truthiness"))
+                    elif isinstance(par, ast.If) and st in par.body:
+                        t = " ".join(src(par.test).split())
+                        if t == f"{p} is None":
+                            out.append((fn, p, st, "none-test"))
+                        elif t == f"not {p}":
+                            out.append((fn, p, st, "truthiness"))
+    return out
+
+
+def _bool_position(n: ast.AST) -> bool:
+    """Is the value of expression node `n` only used for its truthiness?"""
+    par = getattr(n, "_parent", None)
+    if isinstance(par, ast.UnaryOp) and isinstance(par.op, ast.Not):
+        return True
+    if isinstance(par, (ast.If, ast.While, ast.IfExp, ast.Assert)) and par.test is n:
+        return True
+    if isinstance(par, ast.BoolOp):
+        # the last operand of `a or b` / `a and b` is passed on as a value unless the BoolOp itself is in boolean position
+        return par.values[-1] is not n or _bool_position(par)
+    if isinstance(par, ast.comprehension) and n in par.ifs:
+        return True
+    if isinstance(par, ast.Call) and isinstance(par.func, ast.Name) and par.func.id == "bool" and n in par.args:
+        return True
+    if isinstance(par, (ast.GeneratorExp, ast.ListComp, ast.SetComp)) and par.elt is n:
+        g = getattr(par, "_parent", None)
+        return isinstance(g, ast.Call) and isinstance(g.func, ast.Name) and g.func.id in ("any", "all") and par in g.args
+    return False
+
+
+def optional_path_truthiness_sites(fn: ast.AST, source_attr: str = "find_node"):
+    """[(node, how)] - places where an Optional[Path] obtained from `.find_node(...)` is tested by TRUTHINESS.  The root path is the empty tuple `()`, which is falsy: such a
+    test treats 'the node is the root' like 'the node is not in the tree' (the docstring of find_node says so: use `is None`).  Tracks the value through assignments, tuples in
+    list/generator displays, dict displays, `.items()` / `.values()` iteration, element aliases and constant subscripts.  Unknown flows are not followed (no report)."""
+    scalars, elem_alias, containers = {}, {}, {}   # name -> call ; name -> (tuple position|None) ; name -> kind ('elem', ('tuple', i), 'dictvalue')
+    found = []
+    nodes = []
+    todo = list(ast.iter_child_nodes(fn))
+    while todo:  # lambdas belong to the enclosing function; nested defs are visited on their own
+        x = todo.pop()
+        nodes.append(x)
+        if not isinstance(x, (ast.FunctionDef, ast.AsyncFunctionDef, ast.ClassDef)):
+            todo.extend(ast.iter_child_nodes(x))
+    srcs = [c for c in nodes if isinstance(c, ast.Call) and isinstance(c.func, ast.Attribute) and c.func.attr == source_attr]
+
+    def container_kind(call):
+        """climb from the call to the display it is an element of: returns (kind, display node) or (None, None)"""
+        cur, kind = call, "elem"
+        while True:
+            par = getattr(cur, "_parent", None)
+            if isinstance(par, ast.IfExp) and cur in (par.body, par.orelse):
+                cur = par
+                continue
+            if isinstance(par, ast.Tuple) and kind == "elem":
+                kind = ("tuple", par.elts.index(cur))
+                cur = par
+                continue
+            if isinstance(par, (ast.ListComp, ast.SetComp, ast.GeneratorExp)) and par.elt is cur:
+                return kind, par
+            if isinstance(par, (ast.List, ast.Set)) and cur in par.elts:
+                return kind, par
+            if isinstance(par, ast.DictComp) and par.value is cur and kind == "elem":
+                return "dictvalue", par
+            if isinstance(par, ast.Dict) and cur in par.values and kind == "elem":
+                return "dictvalue", par
+            return None, None
+
+    def bound_name(expr):
+        par = getattr(expr, "_parent", None)
+        while isinstance(par, ast.Call) and isinstance(par.func, ast.Name) and par.func.id in ("list", "tuple", "dict", "sorted") and expr in par.args:
+            expr, par = par, getattr(par, "_parent", None)
+        if isinstance(par, ast.Assign) and par.value is expr and len(par.targets) == 1 and isinstance(par.targets[0], ast.Name):
+            return par.targets[0].id
+        if isinstance(par, ast.AnnAssign) and par.value is expr and isinstance(par.target, ast.Name):
+            return par.target.id
+        if isinstance(par, ast.NamedExpr) and par.value is expr:
+            return par.target.id
+        return None
+
+    for c in srcs:
+        if _bool_position(c):
+            found.append((c, f"`{' '.join(src(c).split())[:50]}` itself"))
+            continue
+        nm = bound_name(c)
+        if nm:
+            scalars[nm] = c
+            continue
+        kind, disp = container_kind(c)
+        if kind:
+            nm = bound_name(disp)
+            if nm:
+                containers[nm] = kind
+    # iteration over tainted containers
+    for n in nodes:
+        gens = []
+        if isinstance(n, ast.For):
+            gens.append((n.target, n.iter))
+        elif isinstance(n, ast.comprehension):
+            gens.append((n.target, n.iter))
+        for tgt, it in gens:
+            base, via = it, None
+            if isinstance(it, ast.Call) and isinstance(it.func, ast.Attribute) and it.func.attr in ("items", "values") and not it.args:
+                base, via = it.func.value, it.func.attr
+            if not (isinstance(base, ast.Name) and base.id in containers):
+                continue
+            kind = containers[base.id]
+            if kind == "dictvalue":
+                if via == "items" and isinstance(tgt, ast.Tuple) and len(tgt.elts) == 2 and isinstance(tgt.elts[1], ast.Name):
+                    scalars[tgt.elts[1].id] = base
+                elif via == "values" and isinstance(tgt, ast.Name):
+                    scalars[tgt.id] = base
+            elif via is None:
+                if kind == "elem" and isinstance(tgt, ast.Name):
+                    scalars[tgt.id] = base
+                elif isinstance(kind, tuple):
+                    if isinstance(tgt, ast.Tuple) and kind[1] < len(tgt.elts) and isinstance(tgt.elts[kind[1]], ast.Name):
+                        scalars[tgt.elts[kind[1]].id] = base
+                    elif isinstance(tgt, ast.Name):
+                        elem_alias[tgt.id] = kind[1]
+    for n in nodes:
+        if isinstance(n, ast.Name) and isinstance(n.ctx, ast.Load) and n.id in scalars and _bool_position(n):
+            found.append((n, f"`{n.id}` (a path returned by {source_attr})"))
+        elif isinstance(n, ast.Subscript) and isinstance(n.ctx, ast.Load) and isinstance(n.value, ast.Name) and _bool_position(n):
+            if n.value.id in elem_alias and isinstance(n.slice, ast.Constant) and n.slice.value == elem_alias[n.value.id]:
+                found.append((n, f"`{src(n)}` (the path component of an element)"))
+            elif n.value.id in containers and containers[n.value.id] == "dictvalue":
+                found.append((n, f"`{src(n)}` (a path stored in the mapping)"))
+    return found, len(srcs)
+
+
+def check_optional_path_truthiness(ctx, rule: str, relpaths, min_sources: int = 0) -> int:
+    total = 0
+    for rel in relpaths:
+        m = ctx.repo.module(rel, rule)
+        for q, fn in m.functions():
+            if not isinstance(fn, ast.FunctionDef):
+                continue
+            found, n = optional_path_truthiness_sites(fn)
+            total += n
+            for node, how in found:
+                ctx.viol(rule, f"{rel}:{q}", f"path from find_node tested with `is None`, not by truthiness: {how[:60]}", site(node),
+                         f"{how} is tested by truthiness, but the path of the ROOT is the empty tuple `()` and therefore falsy: a node that IS the root of the context tree "
+                         "(e.g. `start` passed to inside/nth/direct_child) is treated as 'not found' (find_node's docstring: use `is None`)")
+            if n and not found:
+                ctx.ok(rule, f"{rel}:{q}", "paths from find_node never tested by truthiness", site(fn), f"{n} find_node call(s)")
+    if total < min_sources:
+        raise Unrecognised(rule, ",".join(relpaths), f"only {total} find_node calls found (expected >= {min_sources})")
+    return total
+
+
+def check_shared_accumulators(ctx, rule: str, relpaths) -> int:
+    n = 0
+    for rel in relpaths:
+        m = ctx.repo.module(rel, rule)
+        for fn, p, st, kind in shared_accumulator_sites(m.tree):
+            n += 1
+            ctx.check(kind == "none-test", rule, f"{rel}:{_qual(st)}", f"accumulator `{p}` defaulted only when it is None", site(st),
+                      f"`{' '.join(src(st).split())[:70]}` replaces the accumulator `{p}` whenever it is falsy: the caller's container is EMPTY at the first call, so every recursive call "
+                      f"gets a private one and entries recorded by one branch are invisible to its siblings (distinct sub-formulas receive the same fresh placeholder)",
+                      "replaced only when None")
+    return n
+
+
 def run_generic(ctx, relpaths: List[str], prefix: str = "X") -> None:
     from .callgraph import SRC_ISLA
     from .rules.c20 import late_binding_sites
@@ -92,3 +281,5 @@ def run_generic(ctx, relpaths: List[str], prefix: str = "X") -> None:
         ctx.inventory["generic_boolean_positions"] = n
 
     ctx.guarded(f"{prefix}5", x5)
+    ctx.guarded(f"{prefix}7", lambda: ctx.inventory.__setitem__("generic_find_node_calls", check_optional_path_truthiness(ctx, f"{prefix}7-root-path-falsy", relpaths)))
+    ctx.guarded(f"{prefix}6", lambda: ctx.inventory.__setitem__("generic_accumulators", check_shared_accumulators(ctx, f"{prefix}6-shared-accumulator", relpaths)))
